@@ -590,6 +590,20 @@ func checkEnumsLast(w *World, r *Result) {
 				}
 				return true
 			})
+			// PTH-C16p: the expansion runs on every path through the function (every custom statement may hold a placeholder)
+			var cs []string
+			for _, c := range pathCondsNoLoop(fi, as) {
+				if c.expr != nil {
+					t := es(c.expr)
+					if !c.truth {
+						t = "!(" + t + ")"
+					}
+					cs = append(cs, t)
+				}
+			}
+			r.cond(len(cs) == 0, "PTH-C16p", fi.Name, "enum placeholders expanded on every path: "+es(as.Lhs[0])+" = ReplaceEnums(…)", w.Pos(call.Pos()),
+				"the expansion is not under any condition",
+				"the placeholders are only expanded when {"+strings.Join(cs, ", ")+"}: on the other paths a `#[Type.Const]` reaches the generated SQL unexpanded")
 			r.cond(late == "", "PTH-C16o", fi.Name, "enum placeholders expanded last: "+es(as.Lhs[0])+" = ReplaceEnums(…)", w.Pos(call.Pos()),
 				"no rewriting pass is applied to the text after the constants' values were inserted",
 				"the text is rewritten by "+late+" after the enum placeholders were expanded: a string constant that contains a table name (or whatever that pass matches) is altered, and no longer is the SQL literal of the constant's value")
